@@ -1,76 +1,31 @@
 import PbVerif.Lemmas.FastInitFlagSound
 /-
-C08 — generated fast path and reflection path are indistinguishable: the parts of the table-driven
-fast path that decide *required-field initialisation*.
+C08 — generated fast path and reflection path are indistinguishable: the parts of the fast path that
+decide *required-field initialisation* (model: Model/FastInit.lean), stated against the reflection-path
+model `Pb.initMsg` (exact by `C10.initMsg_iff`).
 
-(a) `needsInitCheck` (internal/impl/checkinit.go; model `FastInit.needs` / `query` / `run`):
-    * `needs_total`              the model's fuel is never exhausted;
-    * `needs_sound_when_true`    a cached or returned `true` is always right — all schemas, all histories;
-    * `needs_correct_acyclic`    on schemas whose message graph is acyclic every cached entry and every
-                                 answer is exact;
-    * `needs_correct_false`      REFUTED for cyclic schemas: `¬ NeedsCorrect` (witness Q{A} A{B,C} B{A}
-                                 C{required x}: after querying Q the map holds `false` for B, and B reaches C);
-    * `needsFixed_correct`       the repaired walk (fixes/needsinitcheck-cycle.diff) is exact for ALL
-                                 schemas and ALL query sequences, and total.
+THE CODE AS IT STANDS (/repo at 2af26fa) — namespace `C08`:
+(a) `needsFixed_correct`            `needsInitCheck` (checkinit.go since 78c9443; model `walk` / `queryFixed` /
+                                    `runFixed`) terminates and is exact, for ALL schemas (cyclic or not) and ALL
+                                    query sequences: every entry of the map and every answer equals `Reaches`;
+(b) `initFast_eq_initMsg_fixed`     `checkInitializedPointer` with the `isInit` table pruned by those results
+                                    equals `checkInitializedSlow` on every typed value (`quiet_is_initialized`,
+                                    `initFast_eq_initMsg`, `decoded_typed`);
+(c) `flag_sound_fixed`              the `UnmarshalInitialized` flag (`flagLoop` with `MapRule.andOcc`, codec_map.go
+                                    since 6c2b514) implies `initMsg` of the decoded message, all schemas, all inputs;
+(d) `unmarshal_verdict_eq_initMsg`  the verdict of a top-level `Unmarshal` without AllowPartial (proto/decode.go
+                                    since 2af26fa; model `unmarshalTop`), merging or not, is `initMsg` of the
+                                    resulting message.
+
+HISTORICAL REGRESSION WITNESSES — namespace `C08.Old`, names `old_*`: statements about the code *before* the
+three repairs (models `needs`/`query`/`run`, `MapRule.orOcc`, `decFlagInto`).  They say nothing about the
+current code; they document what was wrong, and the `example`s next to the headline theorems show that the
+current model gives the right answer on the same inputs.
 -/
 namespace C08
 open Pb FastInit
 
-/-! ### (a) needsInitCheck -/
-
-/-- the fuel artefact of the model never shows -/
-theorem needs_total (S : Schema) (xr : Nat → Bool) (qs : List Nat) (c : Cache) :
-    ∃ c', run S xr qs c = some c' := by
-  induction qs generalizing c with
-  | nil => exact ⟨c, rfl⟩
-  | cons q qs ih =>
-    obtain ⟨r, c1, h⟩ := query_total S xr c q
-    obtain ⟨c', h'⟩ := ih c1
-    exact ⟨c', by rw [run, h]; exact h'⟩
-
-theorem run_trueOK (S : Schema) (xr : Nat → Bool) : ∀ (qs : List Nat) (c c' : Cache),
-    TrueOK S xr c → run S xr qs c = some c' → TrueOK S xr c'
-  | [], c, c', hc, h => by cases h; exact hc
-  | q :: qs, c, c', hc, h => by
-    rw [run] at h
-    split at h
-    · cases h
-    · rename_i r c1 hq
-      exact run_trueOK S xr qs c1 c' (needs_true_sound S xr _ c q r c1 hc hq).1 h
-
-/-- **a `true` is always right**: after any sequence of queries from the empty map, on any schema
-(cyclic or not), every cached `true` and every `true` answer is correct -/
-theorem needs_sound_when_true (S : Schema) (xr : Nat → Bool) (qs : List Nat) (c : Cache)
-    (h : run S xr qs Cache.empty = some c) :
-    (∀ i, c i = some (.done true) → Reaches S xr i) ∧
-    (∀ i c', query S xr c i = some (true, c') → Reaches S xr i) := by
-  have hc : TrueOK S xr c := run_trueOK S xr qs _ c (fun j hj => by simp [Cache.empty] at hj) h
-  exact ⟨hc, fun i c' hq => (needs_true_sound S xr _ c i true c' hc hq).2 rfl⟩
-
-theorem run_acyclic (S : Schema) (xr : Nat → Bool) (hA : Acyclic S) : ∀ (qs : List Nat) (c c' : Cache),
-    ExactC S xr c → NoBusy c → run S xr qs c = some c' → ExactC S xr c' ∧ NoBusy c'
-  | [], c, c', hc, hb, h => by cases h; exact ⟨hc, hb⟩
-  | q :: qs, c, c', hc, hb, h => by
-    rw [run] at h
-    split at h
-    · cases h
-    · rename_i r c1 hq
-      obtain ⟨a, b, _⟩ := needs_acyclic S xr hA _ c q r c1 hc (fun j hj => absurd hj (hb j)) hq
-      exact run_acyclic S xr hA qs c1 c' a (fun j hj => hb j ((b j).1 hj)) h
-
-/-- **exact on acyclic schemas**: every cached entry and every answer equals the specification -/
-theorem needs_correct_acyclic (S : Schema) (xr : Nat → Bool) (hA : Acyclic S) (qs : List Nat) (c : Cache)
-    (h : run S xr qs Cache.empty = some c) :
-    (∀ i b, c i = some (.done b) → (b = true ↔ Reaches S xr i)) ∧
-    (∀ i r c', query S xr c i = some (r, c') → (r = true ↔ Reaches S xr i)) := by
-  obtain ⟨hc, hb⟩ := run_acyclic S xr hA qs _ c (fun j b hj => by simp [Cache.empty] at hj)
-    (fun j hj => by simp [Cache.empty] at hj) h
-  exact ⟨hc, fun i r c' hq => (needs_acyclic S xr hA _ c i r c' hc (fun j hj => absurd hj (hb j)) hq).2.2⟩
-
-/-- the statement one would want of the code as it is, for all schemas -/
-def NeedsCorrect : Prop :=
-  ∀ (S : Schema) (xr : Nat → Bool) (qs : List Nat) (c : Cache), run S xr qs Cache.empty = some c →
-    ∀ i b, c i = some (.done b) → (b = true ↔ Reaches S xr i)
+/-! ### witnesses shared by the examples and by `C08.Old` -/
 
 /-- Q{A a} A{B b; C c} B{A a} C{required int32 x}  (indices 0 1 2 3) -/
 def cycS : Schema := ⟨[
@@ -86,33 +41,39 @@ def noXr : Nat → Bool := fun _ => false
 theorem cycS_B_reaches : Reaches cycS noXr 2 :=
   .step (j := 1) (by decide) (.step (j := 3) (by decide) (.here (by decide)))
 
-/-- after `needsInitCheck(Q)` the map holds `false` for B -/
-theorem cycS_cached : (run cycS noXr [0] Cache.empty).map (fun c => c 2) = some (some (.done false)) := by
-  decide
+/-- Q.a.b.a.c = {}  (wire bytes 0a060a040a021200) -/
+def cycM : Msg :=
+  let c : Msg := .mk .nil []
+  let a2 : Msg := .mk (.cons 2 (.one (.msg c)) .nil) []
+  let b : Msg := .mk (.cons 1 (.one (.msg a2)) .nil) []
+  let a1 : Msg := .mk (.cons 1 (.one (.msg b)) .nil) []
+  .mk (.cons 1 (.one (.msg a1)) .nil) []
 
-/-- **REFUTED** (finding `needsinitcheck-cycle-cached-false`): there are a schema, a cache reachable from
-the empty cache by a sequence of queries, and a message for which the cached answer differs from the
-specification; the next query of that message returns the wrong answer -/
-theorem needs_wrong_witness :
-    ∃ (S : Schema) (xr : Nat → Bool) (qs : List Nat) (c : Cache) (i : Nat),
-      run S xr qs Cache.empty = some c ∧ c i = some (.done false) ∧ query S xr c i = some (false, c) ∧
-      Reaches S xr i := by
-  have h := cycS_cached
-  cases hr : run cycS noXr [0] Cache.empty with
-  | none => rw [hr] at h; cases h
-  | some c =>
-    rw [hr] at h
-    simp only [Option.map_some, Option.some.injEq] at h
-    refine ⟨cycS, noXr, [0], c, 2, hr, h, ?_, cycS_B_reaches⟩
-    simp [query, needs, h]
+/-- T{map<int32,V> m = 1} E{int32 key = 1; V value = 2} V{optional W w = 1} W{required int32 x = 1}
+(indices 0 1 2 3) -/
+def mapS : Schema := ⟨[
+  ⟨[{ num := 1, kind := .message, card := .map, sub := 1 }]⟩,
+  ⟨[{ num := 1, kind := .int32, card := .optional }, { num := 2, kind := .message, card := .optional, sub := 2 }]⟩,
+  ⟨[{ num := 1, kind := .message, card := .optional, sub := 3 }]⟩,
+  ⟨[{ num := 1, kind := .int32, card := .required }]⟩]⟩
 
-theorem needs_correct_false : ¬ NeedsCorrect := by
-  intro hN
-  obtain ⟨S, xr, qs, c, i, hr, hc, _, hreach⟩ := needs_wrong_witness
-  have := (hN S xr qs c hr i false hc).2 hreach
-  cases this
+/-- T{m: {1: V{w:{}} then V{}}}: one map entry carrying the value field twice (0a08 0801 12020a00 1200) -/
+def mapBytes : List Spec.Byte := [0x0a, 0x08, 0x08, 0x01, 0x12, 0x02, 0x0a, 0x00, 0x12, 0x00]
 
-/-! #### the repair -/
+def mapNd : Nat → Bool := fun i => decide (i < 4)
+
+/-- V{w: W{}}: a merge target that already holds an uninitialized submessage -/
+def partialV : Msg := .mk (.cons 1 (.one (.msg (.mk .nil []))) .nil) []
+
+/-- the descriptor rules are satisfiable by non-trivial schemas: a cycle, and a map whose value reaches a
+required field -/
+example : schemaOK cycS = true ∧ MapOK cycS noXr ∧ ExtOK cycS noXr ∧ ReqOK cycS ∧
+    schemaOK mapS = true ∧ MapOK mapS noXr ∧ ExtOK mapS noXr ∧ ReqOK mapS ∧ Reaches mapS noXr 0 :=
+  ⟨by decide, mapOK_of_B (by decide), extOK_of_B (by decide), reqOK_of_B (by decide),
+   by decide, mapOK_of_B (by decide), extOK_of_B (by decide), reqOK_of_B (by decide),
+   .step (j := 2) (by decide) (.step (j := 3) (by decide) (.here (by decide)))⟩
+
+/-! ### (a) needsInitCheck -/
 
 theorem runFixed_exact (S : Schema) (xr : Nat → Bool) : ∀ (qs : List Nat) (g g' : BCache),
     Exact S xr g → runFixed S xr qs g = some g' → Exact S xr g'
@@ -124,7 +85,7 @@ theorem runFixed_exact (S : Schema) (xr : Nat → Bool) : ∀ (qs : List Nat) (g
     · rename_i r g1 hq
       exact runFixed_exact S xr qs g1 g' (queryFixed_exact S xr g q r g1 hg hq).1 h
 
-/-- **the repaired walk is exact, for ALL schemas and ALL query sequences**: every sequence of queries
+/-- **`needsInitCheck` is exact, for ALL schemas and ALL query sequences**: every sequence of queries
 terminates; afterwards every entry of the map equals the specification, and so does every answer -/
 theorem needsFixed_correct (S : Schema) (xr : Nat → Bool) (qs : List Nat) :
     ∃ g, runFixed S xr qs BCache.empty = some g ∧
@@ -146,9 +107,26 @@ theorem needsFixed_correct (S : Schema) (xr : Nat → Bool) (qs : List Nat) :
   obtain ⟨r, g', hq⟩ := queryFixed_total S xr g i
   exact ⟨r, g', hq, (queryFixed_exact S xr g i r g' hex hq).2, queryFixed_stores S xr g i r g' hex hq⟩
 
-/-- on the witness the repaired code answers `true` for B after Q was queried -/
+/-- on the cyclic witness the code answers `true` for B after Q was queried (it used to answer `false`:
+`Old.old_needs_wrong_witness`) -/
 example : (runFixed cycS noXr [0] BCache.empty).bind (fun g => (queryFixed cycS noXr g 2).map (·.1)) = some true := by
   decide
+
+/-- `mi.needsInitCheck` as computed by `needsInitCheck(mi.Desc)` after the queries `qs` (by
+`ndFixed_exact` the history does not matter) -/
+def ndFixed (S : Schema) (xr : Nat → Bool) (qs : List Nat) : Nat → Bool := fun i =>
+  match (runFixed S xr qs BCache.empty).bind (fun g => queryFixed S xr g i) with
+  | some (r, _) => r
+  | none => false
+
+theorem ndFixed_exact (S : Schema) (xr : Nat → Bool) (qs : List Nat) (i : Nat) :
+    ndFixed S xr qs i = true ↔ Reaches S xr i := by
+  obtain ⟨g, hg, _, hq⟩ := needsFixed_correct S xr qs
+  obtain ⟨r, g', hq', hiff, _⟩ := hq i
+  unfold ndFixed
+  rw [hg]
+  simp only [Option.bind_some, hq']
+  exact hiff
 
 /-! ### (b) checkInitializedPointer pruned by needsInitCheck = checkInitializedSlow
 
@@ -170,47 +148,17 @@ theorem initFast_eq_initMsg (S : Schema) (xr : Nat → Bool) (nd : Nat → Bool)
     initFastMsg S nd mi m = initMsg S mi m :=
   fast_msg S xr nd hM hX hnd m mi ht
 
-/-- the flags `mi.needsInitCheck` as the code as it is computes them after the queries `qs` -/
-def ndOfRun (S : Schema) (xr : Nat → Bool) (qs : List Nat) : Nat → Bool := fun i =>
-  match (run S xr (qs ++ [i]) Cache.empty).bind (fun c => c i) with
-  | some (.done b) => b
-  | _ => false
-
-/-- Q.a.b.a.c = {}  (wire bytes 0a060a040a021200) -/
-def cycM : Msg :=
-  let c : Msg := .mk .nil []
-  let a2 : Msg := .mk (.cons 2 (.one (.msg c)) .nil) []
-  let b : Msg := .mk (.cons 1 (.one (.msg a2)) .nil) []
-  let a1 : Msg := .mk (.cons 1 (.one (.msg b)) .nil) []
-  .mk (.cons 1 (.one (.msg a1)) .nil) []
-
-/-- **REFUTED with the flags the code as it is computes** (same finding, seen through
-CheckInitialized): after `needsInitCheck(Q)` the fast path accepts a message whose C.x is missing -/
-theorem initFast_wrong_with_cached :
-    tyMsg cycS 0 cycM = true ∧ initFastMsg cycS (ndOfRun cycS noXr [0]) 0 cycM = true ∧ initMsg cycS 0 cycM = false := by
-  decide
-
-/-- with the repaired walk every flag is exact (whatever was queried before), so the fast check is the slow check -/
+/-- **`CheckInitialized` on the fast path is `checkInitializedSlow`**: every `needsInitCheck` flag is exact
+(whatever was queried before), so the pruned check equals the full check, for all schemas and typed values -/
 theorem initFast_eq_initMsg_fixed (S : Schema) (xr : Nat → Bool) (hM : MapOK S xr) (hX : ExtOK S xr)
-    (qs : List Nat) (nd : Nat → Bool)
-    (hnd : ∀ i, ∃ g g', runFixed S xr qs BCache.empty = some g ∧ queryFixed S xr g i = some (nd i, g'))
-    (mi : Nat) (m : Msg) (ht : tyMsg S mi m = true) : initFastMsg S nd mi m = initMsg S mi m := by
-  refine initFast_eq_initMsg S xr nd hM hX (fun i => ?_) mi m ht
-  obtain ⟨g, g', hr, hq⟩ := hnd i
-  exact (queryFixed_exact S xr g i (nd i) g' (runFixed_exact S xr qs _ g (fun j b hj => by simp [BCache.empty] at hj) hr) hq).2
+    (qs : List Nat) (mi : Nat) (m : Msg) (ht : tyMsg S mi m = true) :
+    initFastMsg S (ndFixed S xr qs) mi m = initMsg S mi m :=
+  initFast_eq_initMsg S xr _ hM hX (ndFixed_exact S xr qs) mi m ht
 
-/-- T{map<int32,V> m = 1} E{int32 key = 1; V value = 2} V{optional W w = 1} W{required int32 x = 1}
-(indices 0 1 2 3) -/
-def mapS : Schema := ⟨[
-  ⟨[{ num := 1, kind := .message, card := .map, sub := 1 }]⟩,
-  ⟨[{ num := 1, kind := .int32, card := .optional }, { num := 2, kind := .message, card := .optional, sub := 2 }]⟩,
-  ⟨[{ num := 1, kind := .message, card := .optional, sub := 3 }]⟩,
-  ⟨[{ num := 1, kind := .int32, card := .required }]⟩]⟩
-
-/-- the hypotheses are satisfiable by non-trivial schemas: a cycle, and a map whose value reaches a required field -/
-example : MapOK cycS noXr ∧ ExtOK cycS noXr ∧ MapOK mapS noXr ∧ ExtOK mapS noXr ∧ Reaches mapS noXr 0 :=
-  ⟨mapOK_of_B (by decide), extOK_of_B (by decide), mapOK_of_B (by decide), extOK_of_B (by decide),
-   .step (j := 2) (by decide) (.step (j := 3) (by decide) (.here (by decide)))⟩
+/-- on the cyclic witness (Q queried first) the fast check now rejects Q.a.b.a.c = {} as the slow check does
+(it used to accept it: `Old.old_initFast_wrong_with_cached`) -/
+example : initFastMsg cycS (ndFixed cycS noXr [0]) 0 cycM = false ∧ initMsg cycS 0 cycM = false := by
+  decide
 
 /-- every decoded message is typed (so (b) applies to whatever the decoder produces) -/
 theorem decoded_typed (S : Schema) (xr : Nat → Bool) (hS : schemaOK S = true) (hM : MapOK S xr) (mi : Nat)
@@ -225,8 +173,9 @@ theorem decoded_typed (S : Schema) (xr : Nat → Bool) (hS : schemaOK S = true) 
 
 `decFlag S nd rule mi b` = the message decoded from `b` together with the flag (`FastInit.flagLoop`:
 `requiredMask` popcount, `if f.funcs.isInit != nil && !o.initialized { initialized = false }`, and the
-rule `consumeMapOfMessage` uses to combine the occurrences of a map value).  `proto.Unmarshal` skips
-`checkInitialized` when the flag is set, so the flag has to imply `initMsg`. -/
+rule `consumeMapOfMessage` uses to combine the occurrences of a map value; the code as it stands uses
+`MapRule.andOcc`).  A non-merging `proto.Unmarshal` skips `checkInitialized` when the flag is set, so the
+flag has to imply `initMsg`. -/
 
 /-- the flag is sound for rule `rule`: for every schema obeying the descriptor rules (`schemaOK`, `MapOK`,
 `ExtOK`, `ReqOK`), `needsInitCheck` results `nd` that are never wrongly `false`, every message type and
@@ -236,33 +185,184 @@ def FlagSound (rule : MapRule) : Prop :=
     (∀ i, nd i = false → ¬ Reaches S xr i) →
     ∀ (mi : Nat) (b : List Spec.Byte) (m : Msg), decFlag S nd rule mi b = .ok (m, true) → initMsg S mi m = true
 
-/-- **the flag with the repaired rule (AND over the occurrences, at least one) is sound**, all schemas, all inputs -/
+/-- **the flag (a map value counts as initialized when it was seen and every occurrence was initialized) is
+sound**, all schemas, all inputs -/
 theorem flag_sound_fixed : FlagSound .andOcc :=
   fun S xr nd hS hM hX hR hnd mi b m h => decFlag_sound S xr nd .andOcc hS hM hX hR hnd (Or.inl rfl) mi b m h
 
-/-- **the flag of the code as it is (OR rule) is sound for everything except message-valued maps** -/
-theorem flag_sound (S : Schema) (xr nd : Nat → Bool) (hS : schemaOK S = true) (hM : MapOK S xr) (hX : ExtOK S xr)
+/-- the flag is not vacuous: an initialized input sets it
+(T{m: {1: V{w: W{x: 5}}}} = 0a08 0801 1204 0a02 0805) -/
+example :
+    (match decFlag mapS mapNd .andOcc 0 [0x0a, 0x08, 0x08, 0x01, 0x12, 0x04, 0x0a, 0x02, 0x08, 0x05] with
+     | .ok (m, fl) => fl && initMsg mapS 0 m
+     | .error _ => false) = true := by
+  decide
+
+/-- on the map witness (value field twice: V{w:{}} then V{}) the flag is not set and the decoded message is
+not initialized (the flag used to be set: `Old.old_mapS_or_flag`) -/
+example :
+    (match decFlag mapS mapNd .andOcc 0 mapBytes with
+     | .ok (m, fl) => !fl && !initMsg mapS 0 m
+     | .error _ => false) = true := by
+  decide
+
+/-! ### (d) the verdict of a top-level Unmarshal
+
+`unmarshalTop S nd mi merge m0 b limit dis` = proto/decode.go `UnmarshalOptions.unmarshal` without
+AllowPartial on the fast path: `Reset` unless `Merge`; decode; when the caller asked for `Merge` the flag is
+cleared; a set flag returns nil, otherwise `checkInitialized(m)` (the pruned fast check) decides. -/
+
+/-- **a top-level Unmarshal, merging or not, reports a required-field error iff the resulting message is not
+initialized** — for all schemas obeying the descriptor rules, any `needsInitCheck` history, any well-formed
+merge target, all inputs, all RecursionLimits, with or without DiscardUnknown -/
+theorem unmarshal_verdict_eq_initMsg (S : Schema) (xr : Nat → Bool) (hS : schemaOK S = true) (hM : MapOK S xr)
+    (hX : ExtOK S xr) (hR : ReqOK S) (qs : List Nat) (mi : Nat) (merge : Bool) (m0 : Msg)
+    (b : List Spec.Byte) (limit : Int) (dis : Bool) (m : Msg) (v : Bool)
+    (hw : merge = true → dwfMsg S mi m0 = true)
+    (h : unmarshalTop S (ndFixed S xr qs) mi merge m0 b limit dis = .ok (m, v)) :
+    v = initMsg S mi m :=
+  unmarshalTop_verdict S xr _ hS hM hX hR (ndFixed_exact S xr qs) mi merge m0 b limit dis m v hw h
+
+/-- the merging case spelled out: the verdict is `initMsg` of the merged result, whatever the flag says -/
+theorem unmarshal_merge_verdict (S : Schema) (xr : Nat → Bool) (hS : schemaOK S = true) (hM : MapOK S xr)
+    (hX : ExtOK S xr) (hR : ReqOK S) (qs : List Nat) (mi : Nat) (m0 : Msg) (b : List Spec.Byte) (m : Msg) (v : Bool)
+    (hw : dwfMsg S mi m0 = true)
+    (h : unmarshalTop S (ndFixed S xr qs) mi true m0 b = .ok (m, v)) :
+    unmarshalInto S mi m0 b 10000 false = .ok m ∧ v = initMsg S mi m := by
+  refine ⟨?_, unmarshal_verdict_eq_initMsg S xr hS hM hX hR qs mi true m0 b 10000 false m v (fun _ => hw) h⟩
+  unfold unmarshalTop at h
+  simp only [if_true] at h
+  cases hu : unmarshalInto S mi m0 b 10000 false with
+  | error e => rw [hu] at h; cases h
+  | ok m1 =>
+    rw [hu] at h
+    simp only [Except.map, Except.ok.injEq, Prod.mk.injEq] at h
+    rw [h.1]
+
+/-- the three regression inputs under the code as it stands: merging empty input into V{w: W{}} is refused
+(used to be accepted: `Old.old_flag_merge_needs_initialized_target`), the map witness is refused, an
+initialized input is accepted -/
+example :
+    (match unmarshalTop mapS (ndFixed mapS noXr []) 2 true partialV [],
+           unmarshalTop mapS (ndFixed mapS noXr []) 0 false Msg.empty mapBytes,
+           unmarshalTop mapS (ndFixed mapS noXr []) 0 false Msg.empty
+             [0x0a, 0x08, 0x08, 0x01, 0x12, 0x04, 0x0a, 0x02, 0x08, 0x05] with
+     | .ok (_, v1), .ok (_, v2), .ok (_, v3) => !v1 && !v2 && v3
+     | _, _, _ => false) = true := by
+  decide
+
+/-! ### HISTORICAL regression witnesses: the code before /repo 78c9443, 6c2b514, 2af26fa
+
+Nothing below is a statement about the current code. -/
+namespace Old
+
+/-! #### `needsInitCheckLocked` before 78c9443 (model `needs` / `query` / `run`) -/
+
+/-- the fuel artefact of the model never shows -/
+theorem old_needs_total (S : Schema) (xr : Nat → Bool) (qs : List Nat) (c : Cache) :
+    ∃ c', run S xr qs c = some c' := by
+  induction qs generalizing c with
+  | nil => exact ⟨c, rfl⟩
+  | cons q qs ih =>
+    obtain ⟨r, c1, h⟩ := query_total S xr c q
+    obtain ⟨c', h'⟩ := ih c1
+    exact ⟨c', by rw [run, h]; exact h'⟩
+
+theorem old_run_trueOK (S : Schema) (xr : Nat → Bool) : ∀ (qs : List Nat) (c c' : Cache),
+    TrueOK S xr c → run S xr qs c = some c' → TrueOK S xr c'
+  | [], c, c', hc, h => by cases h; exact hc
+  | q :: qs, c, c', hc, h => by
+    rw [run] at h
+    split at h
+    · cases h
+    · rename_i r c1 hq
+      exact old_run_trueOK S xr qs c1 c' (needs_true_sound S xr _ c q r c1 hc hq).1 h
+
+/-- **a `true` is always right**: after any sequence of queries from the empty map, on any schema
+(cyclic or not), every cached `true` and every `true` answer is correct -/
+theorem old_needs_sound_when_true (S : Schema) (xr : Nat → Bool) (qs : List Nat) (c : Cache)
+    (h : run S xr qs Cache.empty = some c) :
+    (∀ i, c i = some (.done true) → Reaches S xr i) ∧
+    (∀ i c', query S xr c i = some (true, c') → Reaches S xr i) := by
+  have hc : TrueOK S xr c := old_run_trueOK S xr qs _ c (fun j hj => by simp [Cache.empty] at hj) h
+  exact ⟨hc, fun i c' hq => (needs_true_sound S xr _ c i true c' hc hq).2 rfl⟩
+
+theorem old_run_acyclic (S : Schema) (xr : Nat → Bool) (hA : Acyclic S) : ∀ (qs : List Nat) (c c' : Cache),
+    ExactC S xr c → NoBusy c → run S xr qs c = some c' → ExactC S xr c' ∧ NoBusy c'
+  | [], c, c', hc, hb, h => by cases h; exact ⟨hc, hb⟩
+  | q :: qs, c, c', hc, hb, h => by
+    rw [run] at h
+    split at h
+    · cases h
+    · rename_i r c1 hq
+      obtain ⟨a, b, _⟩ := needs_acyclic S xr hA _ c q r c1 hc (fun j hj => absurd hj (hb j)) hq
+      exact old_run_acyclic S xr hA qs c1 c' a (fun j hj => hb j ((b j).1 hj)) h
+
+/-- **exact on acyclic schemas**: every cached entry and every answer equals the specification -/
+theorem old_needs_correct_acyclic (S : Schema) (xr : Nat → Bool) (hA : Acyclic S) (qs : List Nat) (c : Cache)
+    (h : run S xr qs Cache.empty = some c) :
+    (∀ i b, c i = some (.done b) → (b = true ↔ Reaches S xr i)) ∧
+    (∀ i r c', query S xr c i = some (r, c') → (r = true ↔ Reaches S xr i)) := by
+  obtain ⟨hc, hb⟩ := old_run_acyclic S xr hA qs _ c (fun j b hj => by simp [Cache.empty] at hj)
+    (fun j hj => by simp [Cache.empty] at hj) h
+  exact ⟨hc, fun i r c' hq => (needs_acyclic S xr hA _ c i r c' hc (fun j hj => absurd hj (hb j)) hq).2.2⟩
+
+/-- the statement one would want of the old code, for all schemas -/
+def OldNeedsCorrect : Prop :=
+  ∀ (S : Schema) (xr : Nat → Bool) (qs : List Nat) (c : Cache), run S xr qs Cache.empty = some c →
+    ∀ i b, c i = some (.done b) → (b = true ↔ Reaches S xr i)
+
+/-- after `needsInitCheck(Q)` the map holds `false` for B -/
+theorem old_cycS_cached : (run cycS noXr [0] Cache.empty).map (fun c => c 2) = some (some (.done false)) := by
+  decide
+
+/-- **HISTORICAL, refuted the old code** (finding `needsinitcheck-cycle-cached-false`, repaired in 78c9443): there are a schema, a cache reachable from
+the empty cache by a sequence of queries, and a message for which the cached answer differs from the
+specification; the next query of that message returns the wrong answer -/
+theorem old_needs_wrong_witness :
+    ∃ (S : Schema) (xr : Nat → Bool) (qs : List Nat) (c : Cache) (i : Nat),
+      run S xr qs Cache.empty = some c ∧ c i = some (.done false) ∧ query S xr c i = some (false, c) ∧
+      Reaches S xr i := by
+  have h := old_cycS_cached
+  cases hr : run cycS noXr [0] Cache.empty with
+  | none => rw [hr] at h; cases h
+  | some c =>
+    rw [hr] at h
+    simp only [Option.map_some, Option.some.injEq] at h
+    refine ⟨cycS, noXr, [0], c, 2, hr, h, ?_, cycS_B_reaches⟩
+    simp [query, needs, h]
+
+theorem old_needs_correct_false : ¬ OldNeedsCorrect := by
+  intro hN
+  obtain ⟨S, xr, qs, c, i, hr, hc, _, hreach⟩ := old_needs_wrong_witness
+  have := (hN S xr qs c hr i false hc).2 hreach
+  cases this
+
+/-- the flags `mi.needsInitCheck` as the old code computes them after the queries `qs` -/
+def oldNdOfRun (S : Schema) (xr : Nat → Bool) (qs : List Nat) : Nat → Bool := fun i =>
+  match (run S xr (qs ++ [i]) Cache.empty).bind (fun c => c i) with
+  | some (.done b) => b
+  | _ => false
+
+/-- **HISTORICAL: with the flags the old code computed** (same finding, seen through
+CheckInitialized): after `needsInitCheck(Q)` the fast path accepts a message whose C.x is missing -/
+theorem old_initFast_wrong_with_cached :
+    tyMsg cycS 0 cycM = true ∧ initFastMsg cycS (oldNdOfRun cycS noXr [0]) 0 cycM = true ∧ initMsg cycS 0 cycM = false := by
+  decide
+
+/-! #### `consumeMapOfMessage` before 6c2b514 (`MapRule.orOcc`) -/
+
+/-- **the flag of the old code (OR rule) is sound for everything except message-valued maps** -/
+theorem old_flag_sound (S : Schema) (xr nd : Nat → Bool) (hS : schemaOK S = true) (hM : MapOK S xr) (hX : ExtOK S xr)
     (hR : ReqOK S) (hnd : ∀ i, nd i = false → ¬ Reaches S xr i) (hno : NoMsgMap S)
     (mi : Nat) (b : List Spec.Byte) (m : Msg) (h : decFlag S nd .orOcc mi b = .ok (m, true)) :
     initMsg S mi m = true :=
   decFlag_sound S xr nd .orOcc hS hM hX hR hnd (Or.inr hno) mi b m h
 
-/-- T{m: {1: V{w:{}} then V{}}}: one map entry carrying the value field twice (0a08 0801 12020a00 1200) -/
-def mapBytes : List Spec.Byte := [0x0a, 0x08, 0x08, 0x01, 0x12, 0x02, 0x0a, 0x00, 0x12, 0x00]
-
-def mapNd : Nat → Bool := fun i => decide (i < 4)
-
 /-- with the OR rule the flag is set although W.x is missing in the merged value -/
-theorem mapS_or_flag :
+theorem old_mapS_or_flag :
     (match decFlag mapS mapNd .orOcc 0 mapBytes with
      | .ok (m, fl) => fl && !initMsg mapS 0 m
-     | .error _ => false) = true := by
-  decide
-
-/-- with the AND rule the flag is not set on this input (and the decoded message is the same) -/
-example :
-    (match decFlag mapS mapNd .andOcc 0 mapBytes with
-     | .ok (m, fl) => !fl && !initMsg mapS 0 m
      | .error _ => false) = true := by
   decide
 
@@ -276,10 +376,11 @@ theorem mapNd_sound : ∀ i, mapNd i = false → ¬ Reaches mapS noXr i := by
   · simp [own, hasRequired, msg_out_of_range hge, noXr] at ho
   · rw [succs_out_of_range hge] at hj; cases hj
 
-/-- **REFUTED** (finding `map-message-value-init-or`): the flag of the code as it is is not sound -/
-theorem flag_sound_or_false : ¬ FlagSound .orOcc := by
+/-- **HISTORICAL, refuted the old code** (finding `map-message-value-init-or`, repaired in 6c2b514): the flag
+with the OR rule is not sound -/
+theorem old_flag_sound_or_false : ¬ FlagSound .orOcc := by
   intro hF
-  have h := mapS_or_flag
+  have h := old_mapS_or_flag
   cases hd : decFlag mapS mapNd .orOcc 0 mapBytes with
   | error e => rw [hd] at h; cases h
   | ok r =>
@@ -291,23 +392,9 @@ theorem flag_sound_or_false : ¬ FlagSound .orOcc := by
       (reqOK_of_B (by decide)) mapNd_sound 0 mapBytes m hd
     rw [hi] at this; cases this
 
-/-- the flag is not vacuous: an initialized input sets it under both rules
-(T{m: {1: V{w: W{x: 5}}}} = 0a08 0801 1204 0a02 0805) -/
-example :
-    (match decFlag mapS mapNd .orOcc 0 [0x0a, 0x08, 0x08, 0x01, 0x12, 0x04, 0x0a, 0x02, 0x08, 0x05],
-           decFlag mapS mapNd .andOcc 0 [0x0a, 0x08, 0x08, 0x01, 0x12, 0x04, 0x0a, 0x02, 0x08, 0x05] with
-     | .ok (m, fl), .ok (_, fl') => fl && fl' && initMsg mapS 0 m
-     | _, _ => false) = true := by
-  decide
+/-! #### a merging Unmarshal trusting the flag, before 2af26fa (`decFlagInto`) -/
 
-/-! #### merging into an existing message (`UnmarshalOptions{Merge: true}`)
-
-The flag is computed from the input alone.  It is sound when everything nested in the target message was
-initialized before; without that it is not (under either rule): observed on the real code as
-`proto.UnmarshalOptions{Merge: true}.Unmarshal(nil, &TestRequiredForeign{OptionalMessage: &TestRequired{}})`
-returning nil for the generated type and the required-field error for dynamicpb. -/
-
-theorem flag_sound_merge (rule : MapRule) (hrule : rule = .andOcc ∨ ∀ S, NoMsgMap S → True)
+theorem old_flag_sound_merge (rule : MapRule)
     (S : Schema) (xr nd : Nat → Bool) (hS : schemaOK S = true) (hM : MapOK S xr) (hX : ExtOK S xr)
     (hR : ReqOK S) (hnd : ∀ i, nd i = false → ¬ Reaches S xr i) (hr : rule = .andOcc ∨ NoMsgMap S)
     (mi : Nat) (m0 : Msg) (b : List Spec.Byte) (m : Msg) (hw : dwfMsg S mi m0 = true)
@@ -315,11 +402,14 @@ theorem flag_sound_merge (rule : MapRule) (hrule : rule = .andOcc ∨ ∀ S, NoM
     (h : decFlagInto S nd rule mi m0 b = .ok (m, true)) : initMsg S mi m = true :=
   decFlagInto_sound S xr nd rule hS hM hX hR hnd hr mi m0 b m hw h0 h
 
-/-- V{w: W{}} as merge target, empty input: the flag is set, the result is not initialized -/
-theorem flag_merge_needs_initialized_target :
-    (match decFlagInto mapS mapNd .andOcc 2 (.mk (.cons 1 (.one (.msg (.mk .nil []))) .nil) []) [] with
+/-- **HISTORICAL** (repaired in 2af26fa, which no longer trusts the flag when merging): V{w: W{}} as merge
+target, empty input: the flag is set, the result is not initialized -/
+theorem old_flag_merge_needs_initialized_target :
+    (match decFlagInto mapS mapNd .andOcc 2 partialV [] with
      | .ok (m, fl) => fl && !initMsg mapS 2 m
      | .error _ => false) = true := by
   decide
+
+end Old
 
 end C08
